@@ -1,0 +1,38 @@
+// +build verif
+
+package redis
+
+import (
+	"bytes"
+	"io"
+)
+
+// Entry points for verification builds only.
+
+// VerifDecoder wraps the RESP decoder.
+type VerifDecoder struct {
+	d *decoder
+}
+
+func VerifNewDecoder(r io.Reader, bufSize int) *VerifDecoder {
+	return &VerifDecoder{d: newDecoder(r, bufSize)}
+}
+
+func (v *VerifDecoder) Decode() (*RespValue, error) { return v.d.Decode() }
+
+// VerifEncode encodes the value with a writer buffer of the given size.
+func VerifEncode(v *RespValue, bufSize int) ([]byte, error) {
+	var b bytes.Buffer
+	e := newEncoder(&b, bufSize)
+	if err := e.Encode(v); err != nil {
+		return nil, err
+	}
+	if err := e.Flush(); err != nil {
+		return nil, err
+	}
+	return b.Bytes(), nil
+}
+
+func VerifBtoi64(b []byte) (int64, error) { return btoi64(b) }
+
+func VerifItoa(i int64) string { return itoa(i) }
